@@ -35,6 +35,8 @@ type op struct {
 	Implicit bool `json:"implicit_when,omitempty"`
 	// EmptySched: the rule also says "schedule":"" (or null), which is no schedule
 	EmptySched int `json:"empty_schedule,omitempty"`
+	// Dep: the rule says deleteWith:[Dep] (it goes when that fact is removed)
+	Dep string `json:"delete_with,omitempty"`
 }
 
 type world struct {
@@ -93,6 +95,9 @@ func ruleMap(o op) map[string]interface{} {
 	if o.Expire {
 		r["expires"] = float64(time.Now().Unix() + 1000000)
 	}
+	if o.Dep != "" {
+		r["deleteWith"] = []interface{}{o.Dep}
+	}
 	return r
 }
 
@@ -109,6 +114,9 @@ func (w *world) apply(o *op) {
 			wrap := map[string]interface{}{"rule": rm}
 			if e, ok := rm["expires"]; ok {
 				wrap["expires"] = e
+			}
+			if d, ok := rm["deleteWith"]; ok {
+				wrap["deleteWith"] = d
 			}
 			m.Put(o.Id, wrap)
 		}
@@ -274,6 +282,9 @@ func main() {
 				if !o.Sched && hg.Intn(12) == 0 {
 					o.EmptySched = 1 + hg.Intn(2) // "schedule":"" or null next to the `when`: no schedule
 				}
+				if hg.Intn(6) == 0 {
+					o.Dep = "dep" // the rule leaves when the fact "dep" is removed (whether or not it exists now)
+				}
 				if hg.Intn(10) == 0 {
 					// a property variable (the only key of its map) next to rules that name keys
 					for _, v := range hg.Map(1) {
@@ -291,6 +302,9 @@ func main() {
 				o.Fact = hg.Map(1)
 			case k < 15:
 				o.Op = "remFact"
+				if hg.Intn(2) == 0 {
+					o.Id = "dep" // cascade: the rules that name it in deleteWith leave with it
+				}
 			case k < 19:
 				o.Op = "enable"
 				o.On = hg.Intn(2) == 0
